@@ -44,7 +44,7 @@ theorem pyInt_decimal (n : Nat) (h : n < 10 ^ maxStrDigits) : pyInt (decimal n) 
     isDigit_of_core (Nat.isDigit_of_mem_toDigits (by decide) (by decide) hc)
   have hlen : (decimal n).length ≤ maxStrDigits :=
     (Nat.length_toDigits_le_iff (by decide) (by decide)).mpr h
-  unfold pyInt
+  rw [pyInt_of_digits _ hd]
   cases hdn : decimal n with
   | nil => exact absurd hdn Nat.toDigits_ne_nil
   | cons c r =>
